@@ -193,7 +193,10 @@ func (w *worker) streamServerCase(wire []byte, hs handshakeFn, ref streamRef, re
 		got := append([]byte{}, r3.Payload...) // the relay hands the initial payload to the outbound dial before anything is written back
 		_, _ = tc.Write([]byte("PONG"))
 		w.ops++
-		buf := make([]byte, 70000)
+		if w.rbuf == nil {
+			w.rbuf = make([]byte, 70000)
+		}
+		buf := w.rbuf
 		for i := 0; i < 64; i++ {
 			n, err := tc.Read(buf)
 			w.ops++
